@@ -156,6 +156,9 @@ class G:
         local_enums = []
         if depth < 2 and r.random() < 0.5:
             en = self.camel(local_types | env["types"], suffix_from=env["types"])
+            if r.random() < self.risky * 0.5:
+                en = name               # a nested enum may be named like its structure
+                self.feat("nested_enum_named_like_structure")
             el, info = self.enum(en, 2)
             lines += el
             local_enums.append((en, info))
@@ -414,7 +417,9 @@ class G:
 def gen(r, risky=0.15):
     g = G(r, risky)
     types = set()
-    dep_lines = ['[$default byte_order: "LittleEndian"]', '[(cpp) namespace: "%s"]' % r.choice(["dep::ns", "dep", "::dd::e1"]), ""]
+    same_ns = risky > 0 and r.random() < 0.35      # both modules in one C++ namespace (or both in the default one)
+    dep_ns = r.choice(["dep::ns", "dep", "::dd::e1"])
+    dep_lines = ['[$default byte_order: "LittleEndian"]', '[(cpp) namespace: "%s"]' % dep_ns, ""]
     el, dinfo = g.enum("DepKind", 0)
     dep_lines += el + ["", "struct DepHdr:", "  0 [+1] UInt tag", "  1 [+2] UInt len", "  let twice = len * 2", "",
                        "struct DepVec(n: UInt:8):", "  0 [+n] UInt:8[] items", ""]
@@ -429,6 +434,20 @@ def gen(r, risky=0.15):
     if r.random() < 0.04:       # a keyword component: the back end must reject (else `namespace new {` reaches g++)
         ns = r.choice(["acme :: %s :: wire", " %s", "std2::%s ", "%s"]) % r.choice(
             ["protected", "new", "default", "NULL", "and", "class", "delete", "not", "int", "alignas"])
+    if use_import and same_ns:
+        g.feat("modules_share_cpp_namespace")
+        if ns is None:
+            dep_lines[1] = ""
+        else:
+            dep_lines[1] = '[(cpp) namespace: "%s"]' % ns
+        if r.random() < 0.6:
+            # ... and a type of this module named like (or like an identifier generated for) a type of the other one
+            types_like_dep = r.choice(["DepKind", "DepHdr", "DepVec", "DepHdrView", "MakeDepVecView", "DepKindx"])
+            lines_dup = types_like_dep
+        else:
+            lines_dup = None
+    else:
+        lines_dup = None
     if ns is not None:
         lines.append('[(cpp) namespace: "%s"]' % ns)
         g.feat("namespace")
@@ -442,6 +461,10 @@ def gen(r, risky=0.15):
         structs.append(("dep.DepVec", None, ["int"]))
     for i in range(r.randint(1, 3)):
         en = g.camel(types, suffix_from=types)
+        if i == 0 and lines_dup and lines_dup not in types:
+            en = lines_dup
+            types.add(en)
+            g.feat("type_named_like_type_of_imported_module")
         el, info = g.enum(en, 0)
         lines += el + [""]
         enums.append((en, info))
